@@ -298,6 +298,7 @@ func (b *bigmachineExecutor) commit(ctx context.Context, m *sliceMachine, key st
 
 func (b *bigmachineExecutor) Run(task *Task) {
 	simhook.Yield("bm.run", func() string { return task.Name.String() })
+	defer simhook.Yield("bm.done", func() string { return task.Name.String() })
 	task.Status.Print("waiting for a machine")
 
 	invIndex := task.Invocation.Index
